@@ -1467,6 +1467,13 @@ def replay_file(path):
 
     def log(x):
         print(x)
+    if d.get("property") == "C05" or d["query"].startswith(("A.", "P.", "E.")):
+        # C05 (interpreter regions): the native reproduction is the program family run by the real
+        # Bit Machine against the big-step evaluator
+        print("query: %s\nmodel: %s" % (d["query"], d.get("model")))
+        r = replay_c07_family("arms_family", log, lambda j: not j.get("agree", False))
+        print("reproduced: %s" % (r is True))
+        return 1 if r is True else 0
     if d["query"].startswith("K14"):
         print("replay of C14 models needs the tables: run `vcheck.py C14` (it replays every counterexample natively)")
         return 2
